@@ -72,6 +72,8 @@ class JobResult:
             "boundaries": 0,
             "status": {},
             "log_digest": "",
+            "traces": [],
+            "states": [],
         }
 
     def stat(self, k, n=1):
@@ -103,6 +105,17 @@ class JobResult:
         self.d["log_digest"] = h.hexdigest()[:20]
         st = res["status"].split(":")[0]
         self.d["status"][st] = self.d["status"].get(st, 0) + 1
+        tr = (res.get("end") or {}).get("trace")
+        if tr:
+            self.d["traces"].append(stable(tr))
+        # distinct sandbox states seen at operation boundaries (path -> digest/mode), per run
+        try:
+            seen = set()
+            for _label, state in runner.boundaries(res):
+                seen.add(stable(sorted(state.items())))
+            self.d["states"].extend(sorted(seen)[:400])
+        except Exception:
+            pass
         if nontrivial:
             self.d["keys"].append(stable(key))
         for k, n in fault_kinds_fired(res).items():
